@@ -118,3 +118,12 @@ def blank_seq(n):
             raise NotImplementedError('BlankSeq has no content')
 
     return BlankSeq(n)
+
+
+def concretize(x, lo, hi):
+    """Return a CONCRETE int equal to x (lo <= x <= hi) by forking on each value.  Used where the
+    implementation performs arithmetic z3 cannot decide on symbolic operands (e.g. a / b)."""
+    for v in range(lo, hi + 1):
+        if x == v:
+            return v
+    raise ValueError('concretize: value out of range')
